@@ -180,12 +180,11 @@ theorem insert_spec {c : Codec} {G} (hc : CodecOk c G) (e : Engine) (rel : Strin
             · exact hg t ht
           · simp only [hr, if_false] at ht; exact hL.liveGood r t ht
 
-/-- an effective delete keeps both invariants. -/
-theorem delete_spec {c : Codec} {G} (hc : CodecOk c G) (e : Engine) (rel : String) (ts : List Tuple)
+/-- an effective delete (after the arity filter) keeps both invariants. -/
+theorem deleteRaw_spec {c : Codec} {G} (hc : CodecOk c G) (e : Engine) (rel : String) (ts : List Tuple)
     (hP : PInv G e) (hL : LInv G e) (hn : ts.Nodup) (hpr : ∀ t ∈ ts, t ∈ liveOf e rel) :
-    PInv G (delete c e rel ts).1 ∧ LInv G (delete c e rel ts).1 ∧ (delete c e rel ts).1.cfg = e.cfg := by
-  show PInv G (deleteCore c e rel ts).1 ∧ LInv G (deleteCore c e rel ts).1 ∧ (deleteCore c e rel ts).1.cfg = e.cfg
-  unfold deleteCore
+    PInv G (deleteCoreRaw c e rel ts).1 ∧ LInv G (deleteCoreRaw c e rel ts).1 ∧ (deleteCoreRaw c e rel ts).1.cfg = e.cfg := by
+  unfold deleteCoreRaw
   cases ts with
   | nil => exact ⟨hP, hL, rfl⟩
   | cons first rest =>
